@@ -41,7 +41,7 @@ impl Adapter for BulkheadAd {
     fn gen_cfg(&mut self, rng: &mut Rng, size: Size) -> Value {
         let maxes: &[u64] = if size == Size::Quick { &[1, 2, 3] } else { &[1, 2, 3, 4] };
         let waits: &[i64] = &[-1, 0, 0, 1, 2, 3, 5];
-        json!({"max": *rng.pick(maxes), "wait": *rng.pick(waits)})
+        json!({"max": *rng.pick(maxes), "wait": *rng.pick(waits), "ctor": rng.below(2)})
     }
     fn build(&mut self, cfg: &Value, sim: &mut Sim) {
         let max = cfg["max"].as_u64().unwrap() as usize;
@@ -64,7 +64,9 @@ impl Adapter for BulkheadAd {
             .on_call_failed(move |_| {
                 c4.failed.fetch_add(1, Ordering::SeqCst);
             });
-        if wait >= 0 {
+        if wait == 0 && cfg["ctor"].as_u64().unwrap_or(0) == 1 {
+            b = b.reject_when_full();
+        } else if wait >= 0 {
             b = b.max_wait_duration(Duration::from_millis(wait as u64));
         }
         let layer = b.build();
